@@ -144,9 +144,23 @@ def run_dict(tape, env, viol, history):
     Value, vf = gen_struct("Value", "c09/value")
     size = 1 + tape.draw("c09/size", 4)
     amap = ArrayMap()
+    from ebpfcat.ebpf import LocalVar
+    from ebpfcat.hashmap import HashMap
     ns = {"license": "GPL", "minimumPacketSize": 20, "amap": amap,
           "table": Dict(Key, Value, size=size), "op": amap.globalVar("I"),
           "res": amap.globalVar("q"), "found": amap.globalVar("I")}
+    # other users of the program stack, declared after the Dict: nothing of this may
+    # disturb the key/value staging area between filling it and the helper call
+    extra = tape.draw("c09/extra-stack-users", 8)
+    if extra & 1:
+        hm = HashMap()
+        ns["hm"] = hm
+        ns["hv0"] = hm.globalVar("I", 7)
+        ns["hv1"] = hm.globalVar("I", 9)
+    if extra & 2:
+        ns["loc"] = LocalVar(tape.pick("c09/locfmt", ["I", "Q", "H", "B"]))
+    if extra & 4:
+        ns["table2"] = Dict(Key, Value, size=2)
     for i, f in enumerate(kf):
         ns[f"k{i}"] = amap.globalVar(f)
     for i, f in enumerate(vf):
@@ -161,6 +175,13 @@ def run_dict(tape, env, viol, history):
         with self.op == 1 as Else:
             for i in range(len(vf)):
                 setattr(self.table.value, f"m{i}", getattr(self, f"v{i}"))
+            if extra & 1:
+                self.hv0 = self.hv1           # a whole-cell copy: uses key scratch space
+            if extra & 2:
+                self.loc = 0x5a
+            if extra & 4:
+                for i in range(len(kf)):
+                    setattr(self.table2.key, f"m{i}", 0x33)
             self.table.update()
             self.res = self.sr0
         with Else:
